@@ -931,3 +931,39 @@ Proof.
     discriminate.
   - exists e. reflexivity.
 Qed.
+
+(* ---------------------------------------------------------------------------- *)
+(* rejections that used to be non-format exceptions                              *)
+
+(* a loader component without an interface tag has no summary comment: format error *)
+Theorem loader_without_interface c tyb :
+  dget N.eqb BF3TAG_TYPE (c_desc c) = Some tyb -> from_be tyb = BF3TYPE_LOADER ->
+  dget N.eqb BF3TAG_INTF (c_desc c) = None -> annotation c = Err EBf3.
+Proof.
+  intros T L I. unfold annotation, desc_get. rewrite T. cbn [bind]. rewrite L.
+  change (BF3TYPE_LOADER =? BF3TYPE_MAIN) with false. change (BF3TYPE_LOADER =? BF3TYPE_LOADER) with true.
+  cbv iota. rewrite I. reflexivity.
+Qed.
+
+(* the exception classes of exec_bf2instrs that emit_bf3comp turns into Bf3FileFormatError *)
+Lemma emit_catches : caught_emit EOverflow = true /\ caught_emit EValue = true /\
+  caught_emit EIndex = true /\ caught_emit EKey = true /\ caught_emit EType = false.
+Proof. repeat split. Qed.
+
+(* a header line named "load" is refused by the parser *)
+Theorem load_header_rejected value : parse_meta_line (s_load ++ [58] ++ value) = Err EValue \/
+  exists c, In c value /\ c = 58.
+Proof.
+  destruct (existsb (fun c => c =? 58) value) eqn:E.
+  - right. apply existsb_exists in E as [c [Hc E]]. apply N.eqb_eq in E. exists c. split; assumption.
+  - left. unfold parse_meta_line.
+    assert (S : forall v acc, existsb (fun c => c =? 58) v = false -> split_on_acc 58 v acc = [rev acc ++ v]).
+    { induction v as [|x t IH]; intros acc H.
+      - cbn. rewrite app_nil_r. reflexivity.
+      - cbn [existsb] in H. apply orb_false_iff in H as [H1 H2]. cbn [split_on_acc]. rewrite H1.
+        rewrite IH by exact H2. cbn [rev]. rewrite <- app_assoc. reflexivity. }
+    unfold split_on. change (s_load ++ [58] ++ value) with (108 :: 111 :: 97 :: 100 :: 58 :: value).
+    cbn [split_on_acc]. change (108 =? 58) with false. change (111 =? 58) with false.
+    change (97 =? 58) with false. change (100 =? 58) with false. change (58 =? 58) with true. cbv iota.
+    rewrite (S value [] E). cbn [rev app]. change (str_eqb [108; 111; 97; 100] s_load) with true. reflexivity.
+Qed.
